@@ -17,4 +17,4 @@ if n != 1:
 open(p, "w").write(s2)
 EOF
 cd "$(dirname "$0")/.."
-PYVC_REPO="$TMP/repo" PYVC_EVIDENCE_DIR="$TMP/evidence" ./check "$PID" 2>&1 | grep -v "^$" | tail -${TAIL:-6} | cut -c1-260
+PYVC_REPO="$TMP/repo" PYVC_EVIDENCE_DIR="$TMP/evidence" PYVC_REPLAY_DIR="$TMP/replays" ./check "$PID" 2>&1 | grep -v "^$" | tail -${TAIL:-6} | cut -c1-260
